@@ -1,0 +1,60 @@
+//go:build verif
+
+package utils
+
+// Contracts for the deductive checker in /verif (comment-only; compiled only with -tags verif).
+// C07, up-front deduction: reward claiming before the fee is deducted. Lib specs: /verif/specs/c07d/71_claim.spec.
+
+import (
+	sdk "github.com/cosmos/cosmos-sdk/types"
+	stakingtypes "github.com/cosmos/cosmos-sdk/x/staking/types"
+)
+
+func specDelegations(_ StakingKeeper, _ sdk.Context, _ sdk.AccAddress) []stakingtypes.DelegationI {
+	panic("specification only")
+}
+
+// modelIterateDelegations is the assumed behaviour of the staking keeper's IterateDelegations (cosmos-sdk
+// x/staking/keeper/alias_functions.go): fn is called on the delegations of the delegator, in store order, with the running
+// index, until it returns true.
+func modelIterateDelegations(sk StakingKeeper, ctx sdk.Context, delegator sdk.AccAddress, fn func(index int64, delegation stakingtypes.DelegationI) (stop bool)) {
+	for i, del := range specDelegations(sk, ctx, delegator) {
+		if fn(int64(i), del) {
+			break
+		}
+	}
+}
+
+/*@
+func specDelegations
+    params sk, ctx, delegator
+    pure as delegations_of
+    ensures len(result) >= 0
+
+// Rewards are claimed on a branch of the state that is written back only when enough was collected: a failure changes nothing,
+// and in no case does the delegator's own balance go down (claiming never debits the payer).
+func ClaimSufficientStakingRewards
+    let a = acc_of_bytes(addr)
+    requires nonnil: stakingKeeper != nil && distributionKeeper != nil
+    modifies bank_bal, bank_cache
+    call writeFn contract (github.com/cosmos/cosmos-sdk/types.Context).CacheContext$1
+    // every withdrawal runs on the branch, for the payer's own delegations
+    call WithdrawDelegationRewards requires branch: ctx == ret(CacheContext, 1, 0) && delAddr == addr
+    ensures failed: result != nil ==> bank_bal == old(bank_bal)
+    ensures nodebit: forall d string :: bank_bal[a][d] >= old(bank_bal)[a][d]
+    loop 1 invariant idx: 0 <= #i
+    loop 1 invariant parent: bank_bal == old(bank_bal)
+    loop 1 invariant nodebit: forall d string :: bank_cache[a][d] >= old(bank_bal)[a][d]
+
+// Rewards are claimed only when the balance in the staking denomination does not cover the amount; then, and in every failure
+// case, the balances are untouched; the payer's own balance never goes down.
+func ClaimStakingRewardsIfNecessary
+    let bond = bond_denom(stakingKeeper, ctx)
+    let a = acc_of_bytes(addr)
+    requires nonnil: stakingKeeper != nil && distributionKeeper != nil && bankKeeper != nil
+    modifies bank_bal, bank_cache
+    ensures wrongdenom: amount[bond] == 0 ==> result != nil
+    ensures covered: amount[bond] != 0 && old(bank_bal)[a][bond] >= 0 && old(bank_bal)[a][bond] >= amount[bond] ==> result == nil && bank_bal == old(bank_bal)
+    ensures failed: result != nil ==> bank_bal == old(bank_bal)
+    ensures nodebit: forall d string :: bank_bal[a][d] >= old(bank_bal)[a][d]
+@*/
